@@ -579,12 +579,25 @@ def Layer.tag : Layer → String
   | .use k => "u" ++ toString k
   | .routeMw i => toString i
 
-/-- a request with the bearer token `auth` goes down the chain: the middlewares that ran (in order) and whether
-the route handler is reached (`false`: the Authorize handler answered 401). -/
-def runChain (auth : Option String) : List Layer → List String × Bool
-  | [] => ([], true)
-  | .auth a b :: rest => if tokenOk (some (a, b)) auth then runChain auth rest else ([], false)
-  | l :: rest => (l.tag :: (runChain auth rest).1, (runChain auth rest).2)
+/-- a user middleware that answers itself instead of calling `next` (harness convention: ids from 900 on). -/
+def Layer.stops : Layer → Bool
+  | .chainMw i => i ≥ 900
+  | .auth _ _ => false
+  | .use k => k ≥ 900
+  | .routeMw i => i ≥ 900
+
+/-- how the way down the chain ends. -/
+inductive ChainEnd where
+  | handler          -- the route handler is reached
+  | unauthorized     -- the Authorize handler answered 401
+  | stopped          -- a user middleware answered itself (did not call `next`)
+  deriving Repr, DecidableEq
+
+/-- a request with the bearer token `auth` goes down the chain: the middlewares that ran (in order) and how it ended. -/
+def runChain (auth : Option String) : List Layer → List String × ChainEnd
+  | [] => ([], .handler)
+  | .auth a b :: rest => if tokenOk (some (a, b)) auth then runChain auth rest else ([], .unauthorized)
+  | l :: rest => if l.stops then ([l.tag], .stopped) else (l.tag :: (runChain auth rest).1, (runChain auth rest).2)
 
 /-- a value stored in a `context.Context`. -/
 inductive CtxVal where
